@@ -9,6 +9,9 @@
 import json, os, subprocess, sys, shutil, re, time
 
 ENV = dict(os.environ, CARGO_NET_OFFLINE="true")
+# evaluation environment: the real one by default, or a private copy made by tools/mkenv.sh
+VE_ROOT = os.environ.get("VE_ROOT", "/verif")
+VE_REPO = os.environ.get("VE_REPO", "/repo")
 ALL = [f"C{i:02d}" for i in range(1, 20)]
 
 
@@ -63,19 +66,19 @@ def verify(cid, n):
 
 
 def evaluate(patch, checks):
-    c, o = sh(f"git -C /repo apply {patch}")
+    c, o = sh(f"git -C {VE_REPO} apply {patch}")
     if c != 0:
         return {"error": "patch does not apply: " + o}
     res = {}
     try:
         for ck in checks:
             t = time.time()
-            c, o = sh(f"/verif/vcheck {ck} --tier quick 2>&1", cwd="/verif")
+            c, o = sh(f"{VE_ROOT}/vcheck {ck} --tier quick 2>&1", cwd=VE_ROOT)
             line = next((l for l in o.splitlines() if l.startswith("VIOLATION") or l.startswith("OK property") or l.startswith("INFRA")), o[-200:])
             reason = next((l.strip() for l in o.splitlines() if l.strip().startswith("reason:")), "")
             res[ck] = {"exit": c, "line": line[:200], "reason": reason[:400], "wall_s": round(time.time() - t, 1)}
     finally:
-        sh("git -C /repo checkout -- .")
+        sh(f"git -C {VE_REPO} checkout -- .")
     return res
 
 
